@@ -528,7 +528,13 @@ fn exec_plan(id: &str, plan: &Value, ctx: &mut Ctx) {
                                     event_notifier: 0,
                                 },
                             ),
-                            type_definition: ExpandedNodeId::from(NodeId::from(&ObjectTypeId::BaseObjectType)),
+                            type_definition: if s["bad_type"].as_bool().unwrap_or(false) {
+                                ctx.fault("invalid_type_definition");
+                                // null, or a node that is not an object type
+                                if i % 2 == 0 { ExpandedNodeId::null() } else { ExpandedNodeId::from(NodeId::from(&ObjectId::ObjectsFolder)) }
+                            } else {
+                                ExpandedNodeId::from(NodeId::from(&ObjectTypeId::BaseObjectType))
+                            },
                         }]),
                     }
                     .into();
@@ -628,7 +634,7 @@ impl Scenario for Nm {
         let (rule, faults): (&'static str, Vec<&'static str>) = match self.id {
             "C28" => ("run = seeded history of AddReferences / DeleteReferences / DeleteNodes (1-2 sessions through the real services) and insert_reference / delete_reference / delete (application actor on the public API) over 6 nodes x 3 reference types, biased towards opposite-direction pairs; after every step forward references, inverse references and has_reference of every node are compared with a triple-set model. non-trivial = history creates an opposite-direction pair, uses the second session or deletes a node; distinct = op/outcome hash.", vec!["opposite_direction_pair", "delete_one_of_opposite_pair", "second_session"]),
             "C29" => ("run = random small reference graph (HasComponent / HasProperty cycles, shared children, Organizes) then DeleteNodes with delete_target_references on a random node, through the service or the API; oracle: the call returns (worker process alive, watchdog), the node and everything it aggregates is gone, no reference mentions a removed node. non-trivial = the deleted node reaches an aggregation cycle or a shared child; distinct = op/outcome hash.", vec!["aggregation_cycle_or_shared_child"]),
-            _ => ("run = seeded history of AddNodes (requested and server-assigned ids, new and existing browse names, parents, reference types), AddReferences, DeleteNodes, DeleteReferences with numeric node ids pre-seeded in the range of the server's id counter; oracle: Good AddNodes => node exists and parent has a forward reference of the given type to it, Bad item => state digest unchanged, assigned ids never collide. non-trivial = a server-assigned id was requested or an item was rejected; distinct = op/outcome hash.", vec!["second_session", "missing_parent"]),
+            _ => ("run = seeded history of AddNodes (requested and server-assigned ids, new and existing browse names, parents, reference types), AddReferences, DeleteNodes, DeleteReferences with numeric node ids pre-seeded in the range of the server's id counter; oracle: Good AddNodes => node exists and parent has a forward reference of the given type to it, Bad item => state digest unchanged, assigned ids never collide. non-trivial = a server-assigned id was requested or an item was rejected; distinct = op/outcome hash.", vec!["second_session", "missing_parent", "invalid_type_definition"]),
         };
         Info {
             level: "exploration",
@@ -713,11 +719,11 @@ impl Scenario for Nm {
                     match rng.below(10) {
                         0..=5 => {
                             let id = if rng.chance(0.6) { "null".to_string() } else { format!("x{}", rng.below(6)) };
-                            steps.push(json!({"op": "add_node", "a": if rng.chance(0.1) { 30 + rng.below(8) } else { a }, "ty": rng.below(3), "id": id, "name": *rng.pick(&names), "sess": rng.below(2), "parent_server_index": if rng.chance(0.1) { 1 } else { 0 }, "missing_parent": rng.chance(0.08)}));
+                            steps.push(json!({"op": "add_node", "a": if rng.chance(0.1) { 30 + rng.below(8) } else { a }, "ty": rng.below(3), "id": id, "name": *rng.pick(&names), "sess": rng.below(2), "parent_server_index": if rng.chance(0.1) { 1 } else { 0 }, "missing_parent": rng.chance(0.08), "bad_type": rng.chance(0.1)}));
                         }
                         6 => steps.push(json!({"op": "add_ref", "a": a, "b": b, "ty": rng.below(3), "forward": rng.chance(0.7), "via": "service", "sess": rng.below(2)})),
                         7 => steps.push(json!({"op": "del_ref", "a": a, "b": b, "ty": rng.below(3), "forward": rng.chance(0.7), "bidir": rng.chance(0.3), "via": "service", "sess": rng.below(2)})),
-                        _ => steps.push(json!({"op": "del_node", "a": 1 + rng.below(n + 8), "target_refs": true, "via": "service", "sess": rng.below(2)})),
+                        _ => steps.push(json!({"op": "del_node", "a": 1 + rng.below(n + 8), "target_refs": rng.chance(0.65), "via": "service", "sess": rng.below(2)})),
                     }
                 }
                 json!({"nodes": n, "sessions": rng.urange(1, 2), "seed_numeric": rng.urange(0, 6), "can_modify": rng.chance(0.9), "tseed": rng.next_u64() >> 12, "steps": steps})
